@@ -15,7 +15,7 @@ for d in repo harness; do [ -d /verif/.build/$d ] && cp -a /verif/.build/$d "$S/
 # make sure ninja notices the patched files
 ( cd "$S/repo" && git diff --name-only 2>/dev/null | xargs -r touch )
 set +e
-unshare -m sh -c "mount --bind '$S/repo' /repo && mount --bind '$S/build' /verif/.build && cd /verif && VERIF_EVID='$S/evid' ./check $*"
+unshare -m sh -c "mount --bind '$S/repo' /repo && mount --bind '$S/build' /verif/.build && cd /verif && VERIF_EVID='$S/evid' ${MUTCHECK_CMD:-./check} $*"
 RC=$?
 echo "mutcheck: exit=$RC"
 exit $RC
